@@ -207,6 +207,8 @@ func (o hop) String() string {
 		return fmt.Sprintf("int %d %s %s %s %d %s", o.face, o.name, b01(o.cbp), b01(o.mbf), o.nonce, opt(o.life))
 	case "data":
 		return fmt.Sprintf("data %d %s %d %s %s", o.face, o.name, o.variant, opt(o.fresh), o.tok)
+	case "rmstale":
+		return fmt.Sprintf("rmstale %s %s %s", o.name, b01(o.cbp), b01(o.mbf))
 	case "run":
 		return fmt.Sprintf("run %d", o.n)
 	case "runns":
@@ -246,6 +248,8 @@ func parseHop(s string) hop {
 	case "data":
 		fc, _ := strconv.ParseUint(f[1], 10, 64)
 		return hop{kind: "data", face: fc, name: parseNm(f[2]), variant: unopt(f[3]), fresh: unopt(f[4]), tok: f[5]}
+	case "rmstale":
+		return hop{kind: "rmstale", name: parseNm(f[1]), cbp: f[2] == "1", mbf: f[3] == "1"}
 	case "run":
 		return hop{kind: "run", n: unopt(f[1])}
 	case "runns":
@@ -536,6 +540,10 @@ func genCase(r *rand.Rand, mode string) (caseCfg, []hop) {
 		default:
 			o = hop{kind: "run", n: []int{1, 1, 5, 50, 99, 100, 101, 250, 499, 500, 501, 1000, 2500, 4000, 4100}[r.Intn(15)]}
 		}
+		if !csOnly && len(recent) > 0 && r.Intn(12) == 0 { // stale handle of an earlier entry (no-op when the entry is still live)
+			k := recent[r.Intn(len(recent))]
+			ops = append(ops, hop{kind: "rmstale", name: parseNm(k.n), cbp: k.cbp, mbf: k.mbf})
+		}
 		if o.kind == "run" && r.Intn(3) == 0 { // event times that are not millisecond aligned
 			o = hop{kind: "runns", n: []int{1, 300000, 999999, 1000001, 700000, 123457, 1999999, 50000001}[r.Intn(8)]}
 		}
@@ -552,6 +560,47 @@ func genCase(r *rand.Rand, mode string) (caseCfg, []hop) {
 		ops = append(ops, o)
 		if (o.kind == "int" || o.kind == "data") && r.Intn(3) != 0 {
 			ops = append(ops, hop{kind: "run", n: 1 + r.Intn(3)})
+		}
+	}
+	if mode != "cs" && r.Intn(3) == 0 {
+		// stale-handle pattern on shared prefixes: a short-lived entry expires (its branch is released), packets are cached under
+		// its name / a sibling / a descendant (the branch is re-created), possibly a new entry of the same name appears, then
+		// RemoveInterest is called again on the old handle; the cached packets must still be found
+		n := pick()
+		cbp := r.Intn(3) == 0
+		ops = append(ops, hop{kind: "int", face: uint64(1 + r.Intn(nFaces)), name: n, cbp: cbp, mbf: false, nonce: r.Uint32(), life: []int{0, 1, 50}[r.Intn(3)]},
+			hop{kind: "run", n: 100 + r.Intn(150)})
+		if r.Intn(4) != 0 {
+			ops = append(ops, hop{kind: "cap", n: 4 + r.Intn(5)})
+		}
+		var cached []nm
+		for i := 0; i < 1+r.Intn(3); i++ {
+			m := append(nm{}, n...)
+			switch r.Intn(3) {
+			case 0:
+				if len(m) < 4 {
+					m = append(m, 1+r.Intn(3))
+				}
+			case 1:
+				if len(m) > 0 {
+					m[len(m)-1] = 1 + r.Intn(3)
+					if len(m) < 4 && r.Intn(2) == 0 {
+						m = append(m, 1+r.Intn(3))
+					}
+				}
+			}
+			cached = append(cached, m)
+			ops = append(ops, hop{kind: "ins", name: m, variant: r.Intn(3), fresh: 5000})
+		}
+		if r.Intn(3) == 0 {
+			ops = append(ops, hop{kind: "int", face: uint64(1 + r.Intn(nFaces)), name: n, cbp: cbp, mbf: false, nonce: r.Uint32(), life: 300})
+		}
+		ops = append(ops, hop{kind: "rmstale", name: n, cbp: cbp, mbf: false})
+		for _, m := range cached {
+			ops = append(ops, hop{kind: "find", name: m, cbp: false, mbf: false})
+		}
+		if len(n) > 0 {
+			ops = append(ops, hop{kind: "find", name: n[:len(n)-1], cbp: true, mbf: false})
 		}
 	}
 	ops = append(ops, hop{kind: "quiesce"})
@@ -616,6 +665,24 @@ type world struct {
 	// for the quiescence horizon
 	maxLife time.Duration
 	mg      *fwmgmt.VerifPitcsMgmt
+	// handles of PIT entries, kept across their removal (stale-handle RemoveInterest)
+	lastH  map[string]table.PitEntry
+	staleH map[string]table.PitEntry
+}
+
+func hkey(n nm, cbp, mbf bool) string { return n.String() + "|" + b01(cbp) + b01(mbf) }
+
+// noteHandle remembers the live entry of a key; a previously remembered, different entry of that key becomes a stale handle
+func (w *world) noteHandle(n nm, cbp, mbf bool) {
+	k := hkey(n, cbp, mbf)
+	cur := table.VerifPitcsEntryOf(w.tbl, n.enc(), cbp, mbf)
+	if cur == nil {
+		return
+	}
+	if old, ok := w.lastH[k]; ok && old != cur {
+		w.staleH[k] = old
+	}
+	w.lastH[k] = cur
 }
 
 func (w *world) line(format string, a ...any) { fmt.Fprintf(w.out, format+"\n", a...) }
@@ -859,6 +926,7 @@ func (w *world) exec(o hop) {
 		if len(datas) > 0 {
 			dt = strings.Join(datas, ",")
 		}
+		w.noteHandle(o.name, o.cbp, o.mbf)
 		w.line("op int %d %s %s %s %d %s %s", o.face, o.name, b01(o.cbp), b01(o.mbf), o.nonce, opt(o.life), st)
 		w.line("obs int %s", dt)
 		life := 4000 * time.Millisecond
@@ -893,6 +961,22 @@ func (w *world) exec(o hop) {
 		w.sent = nil
 		fw.VerifPitcsIncomingData(w.th, pkt)
 		w.line("op data %s %d %s %s", o.name, w.wid(raw), opt(o.fresh), tok)
+	case "rmstale":
+		// RemoveInterest on a handle whose entry is no longer in the table (removed by the reaper; the node may have been
+		// released and re-created by CS insertions or by a new PIT entry of the same name since). Legal; must return false
+		// and change nothing. A handle that is still live is never passed.
+		k := hkey(o.name, o.cbp, o.mbf)
+		cur := table.VerifPitcsEntryOf(w.tbl, o.name.enc(), o.cbp, o.mbf)
+		h := w.staleH[k]
+		if l, ok := w.lastH[k]; ok && l != cur {
+			h = l
+		}
+		if h == nil || h == cur {
+			return // no stale handle for this key
+		}
+		res := w.tbl.RemoveInterest(h)
+		w.line("op rmstale %s", o.name)
+		w.line("obs rmstale %s", b01(res))
 	case "run":
 		w.runFor(time.Duration(o.n) * time.Millisecond)
 		return
@@ -929,7 +1013,7 @@ func runCase(t *testing.T, out *bufio.Writer, k int, src string, cfg caseCfg, op
 		face.Configure()
 		fwmgmt.Configure()
 		table.CreateFIBTable("nametree")
-		w := &world{out: out, cfg: cfg, wids: map[string]int{}}
+		w := &world{out: out, cfg: cfg, wids: map[string]int{}, lastH: map[string]table.PitEntry{}, staleH: map[string]table.PitEntry{}}
 		for f := uint64(1); f <= nFaces; f++ {
 			sc := defn.Local
 			if f%2 == 0 {
